@@ -502,4 +502,112 @@ theorem segmented_fifo_exactly_once (ct n : Nat) (progs : List (List Op)) (wf : 
   simp only [List.nil_append] at h
   exact ⟨h.len, fun t ht => ⟨h.bound t ht, h.deqd t ht⟩, h.data⟩
 
+/-! ### one citation point: every mailbox kind refines its documented sequential queue
+
+`Refines m` collects, per mailbox kind, the all-schedule theorems above in the form other properties
+(C01/C02/C03) can cite: what a run of the mailbox's small-step model guarantees about the values
+`Dequeue` returns relative to the reservation (acceptance) order, plus capacity / emptiness facts.
+Hypotheses are the usage assumptions of each theorem (one consumer thread `ct`; for UnboundedMailbox
+additionally each message context enqueued once; a strict weak order as priority function). -/
+
+def Refines : MB → Prop
+  | .unbounded =>
+    -- FIFO reservation queue: Dequeue's values = the specification's dequeues = a prefix of the reservation
+    -- sequence, never repeated; accepted messages are dequeued or READY
+    ∀ (ct : Nat) (progs : List (List Op)) (sched : List Nat), UB.UBWellFormed ct progs →
+      ∃ cells : List Cell,
+        RQ.run [] (UB.evTrace (initCfg Unbounded.algo Unbounded.init progs) sched) = some cells ∧
+        UB.deqd (runSched (initCfg Unbounded.algo Unbounded.init progs) sched) ct =
+          dequeuedOf (UB.evTrace (initCfg Unbounded.algo Unbounded.init progs) sched) ∧
+        reservedOf (UB.evTrace (initCfg Unbounded.algo Unbounded.init progs) sched) =
+          dequeuedOf (UB.evTrace (initCfg Unbounded.algo Unbounded.init progs) sched) ++ cells.map Cell.val ∧
+        (reservedOf (UB.evTrace (initCfg Unbounded.algo Unbounded.init progs) sched)).Nodup
+  | .ring cap =>
+    -- bounded FIFO: Dequeue's values = the first dequeuePos reservations; at most `size` reserved and unreleased
+    ∀ (ct : Nat) (progs : List (List Op)) (sched : List Nat), RingInv.RingWF ct progs →
+      let c := runSched (initCfg Ring.algo (Ring.init cap) progs) sched
+      let resv := RingInv.resvTrace (initCfg Ring.algo (Ring.init cap) progs) sched
+      resv.length = c.sh.enqPos ∧ c.sh.enqPos ≤ RingInv.rel c.sh + c.sh.size ∧
+      (∀ (t : Thread Ring.PC), c.threads[ct]? = some t → RingInv.deqdT t = resv.take c.sh.deqPos)
+  | .segmented n =>
+    -- unbounded FIFO across segments: Dequeue's values = the first `consumed` reservations
+    ∀ (ct : Nat) (progs : List (List Op)) (sched : List Nat), SegInv.SegWF ct progs →
+      let c := runSched (initCfg Segmented.algo (Segmented.init n) progs) sched
+      let resv := SegInv.resvTrace (initCfg Segmented.algo (Segmented.init n) progs) sched
+      ∀ (t : Thread Segmented.PC), c.threads[ct]? = some t →
+        SegInv.deqdT t = resv.take (SegInv.consumed c.sh + SegInv.inflight t.pc)
+  | .uprio lt =>
+    -- priority queue under a lock: heap order always, removal = a minimum and exactly that element; exact counter
+    StrictWeak lt → ∀ (progs : List (List Op)) (c : Cfg (Locked.algo lt)),
+      Reach (Locked.algo lt) (initCfg (Locked.algo lt) Locked.init progs) c →
+        Heap.HeapInv lt c.sh.heap ∧
+        (∀ x rest, Model.C04.Heap.pop lt c.sh.heap = some (x, rest) → (x :: rest).Perm c.sh.heap ∧ ∀ y ∈ rest, lt y x = false) ∧
+        (c.sh.locked = false → c.sh.length = c.sh.heap.length)
+  | .usprio lt =>
+    StrictWeak lt → ∀ (progs : List (List Op)) (c : Cfg (Intake.algo { cap := none, stable := true, lt })),
+      Reach _ (initCfg _ Intake.init progs) c →
+        ∀ x rest, Model.C04.Heap.pop (Intake.Conf.ltItem { cap := none, stable := true, lt }) c.sh.heap = some (x, rest) →
+          (x :: rest).Perm c.sh.heap ∧ ∀ y ∈ rest, lt y.1 x.1 = false ∧ (lt x.1 y.1 = true ∨ x.2 ≤ y.2)
+  | .bprio cap lt =>
+    StrictWeak lt → ∀ (progs : List (List Op)) (c : Cfg (Intake.algo { cap := some cap, stable := false, lt })),
+      Reach _ (initCfg _ Intake.init progs) c →
+        c.sh.length ≤ (cap : Int) ∧
+        ∀ x rest, Model.C04.Heap.pop (Intake.Conf.ltItem { cap := some cap, stable := false, lt }) c.sh.heap = some (x, rest) →
+          (x :: rest).Perm c.sh.heap ∧ ∀ y ∈ rest, lt y.1 x.1 = false
+  | .bsprio cap lt =>
+    StrictWeak lt → ∀ (progs : List (List Op)) (c : Cfg (Intake.algo { cap := some cap, stable := true, lt })),
+      Reach _ (initCfg _ Intake.init progs) c →
+        c.sh.length ≤ (cap : Int) ∧
+        ∀ x rest, Model.C04.Heap.pop (Intake.Conf.ltItem { cap := some cap, stable := true, lt }) c.sh.heap = some (x, rest) →
+          (x :: rest).Perm c.sh.heap ∧ ∀ y ∈ rest, lt y.1 x.1 = false ∧ (lt x.1 y.1 = true ∨ x.2 ≤ y.2)
+  | .fair =>
+    -- composite (per-sender queues + active list): modelled and tied only.  What IS proved: each per-sender
+    -- sub-queue is an UnboundedMailbox, i.e. refines the FIFO reservation queue in isolation
+    ∀ (ct tid : Nat) (c : UB.Cf) (cells : List Cell), UB.Inv ct c cells →
+      ∃ cells', UB.specStep cells (UB.stepEv c tid) = some cells' ∧ UB.Inv ct (stepCfg c tid) cells'
+
+/-- EVERY mailbox kind refines its documented sequential queue, in the sense of `Refines`
+(the fair mailbox only through its per-sender sub-queues; its composite is tied by the differential) -/
+theorem C04_all_refine : ∀ m : MB, Refines m := by
+  intro m
+  cases m with
+  | unbounded =>
+    intro ct progs sched wf
+    obtain ⟨cells, h1, _, h3, h4, h5, _⟩ := unbounded_linearizable ct progs sched wf
+    exact ⟨cells, h1, h3, h4, h5⟩
+  | ring cap =>
+    intro ct progs sched wf
+    obtain ⟨h1, _, h3⟩ := ring_fifo_exactly_once ct cap progs wf sched
+    have hr := reach_runSched (initCfg Ring.algo (Ring.init cap) progs) _ Reach.init sched
+    exact ⟨h1, (ring_capacity ct cap progs wf _ hr).2.2.2.1, h3⟩
+  | segmented n =>
+    intro ct progs sched wf c resv t ht
+    exact ((segmented_fifo_exactly_once ct n progs wf sched).2.1 t ht).2
+  | uprio lt =>
+    intro hsw progs c hr
+    obtain ⟨h1, h2⟩ := uprio_priority_order lt hsw progs c hr
+    exact ⟨h1, fun x rest hp => ⟨(h2 x rest hp).1, (h2 x rest hp).2.1⟩, (uprio_empty_sound lt progs c hr).1⟩
+  | usprio lt =>
+    intro hsw progs c hr x rest hp
+    have h := (intake_priority_order { cap := none, stable := true, lt } hsw progs c hr).2 x rest hp
+    exact ⟨h.1, stable_priority_then_arrival { cap := none, stable := true, lt } rfl hsw progs c hr x rest hp⟩
+  | bprio cap lt =>
+    intro hsw progs c hr
+    refine ⟨bounded_priority_capacity { cap := some cap, stable := false, lt } cap rfl progs c hr, ?_⟩
+    intro x rest hp
+    have h := (intake_priority_order { cap := some cap, stable := false, lt } hsw progs c hr).2 x rest hp
+    refine ⟨h.1, ?_⟩
+    intro y hy
+    have := h.2.1 y hy
+    simpa [Intake.Conf.ltItem] using this
+  | bsprio cap lt =>
+    intro hsw progs c hr
+    refine ⟨bounded_priority_capacity { cap := some cap, stable := true, lt } cap rfl progs c hr, ?_⟩
+    intro x rest hp
+    have h := (intake_priority_order { cap := some cap, stable := true, lt } hsw progs c hr).2 x rest hp
+    exact ⟨h.1, stable_priority_then_arrival { cap := some cap, stable := true, lt } rfl hsw progs c hr x rest hp⟩
+  | fair =>
+    intro ct tid c cells h
+    exact unbounded_forward_simulation ct tid c cells h
+
 end GoaktVerif.C04
